@@ -729,6 +729,7 @@ def run_lookups(ctx: Ctx, res: Result) -> None:
                     detail = f"{describe_outcome(o)} is reachable without `{p}` having been handed to a raising graph lookup"
             else:
                 good = None
+                filtered_out = None
                 for ev in live:
                     if not ev.loops:
                         continue
@@ -736,6 +737,9 @@ def run_lookups(ctx: Ctx, res: Result) -> None:
                     if lc.elem is None or not lc.elem.meta or lc.elem.meta[0] != p:
                         continue
                     skip = f_or([atom("{} == {}".format(*sorted([lc.elem.key, q]))) for q in scalars])
+                    if lc.filt is not None and S.sat(f_and([f_not(lc.filt[1]), f_not(skip)])):
+                        filtered_out = (ev, lc)
+                        continue  # the loop runs over a filtered copy that drops more than the elements equal to a scalar filter
                     if all(not o.loops and must(o.path, lc.pre_path) for o in rets) and must(tuple(lc.pre_path) + (lc.iter_atom, f_not(skip)), ev.path):
                         good = ev
                         break
@@ -744,6 +748,8 @@ def run_lookups(ctx: Ctx, res: Result) -> None:
                     detail = f"every element of `{p}` is handed to networkx' raising {good.name}() on every path (skipped at most when equal to {' / '.join(scalars) or 'nothing'}, which is looked up itself)"
                 else:
                     detail = f"an element of `{p}` can escape the raising graph lookup"
+                    if filtered_out is not None:
+                        detail += f": the loop `{header(filtered_out[1].node)[:60]}` only sees the elements that satisfy `{show(filtered_out[1].filt[1])[:160]}`, which drops more than the element equal to {' / '.join(scalars) or 'a scalar filter'}"
             if not ok:
                 if mine and not live:
                     detail += f": the error of `{norm(mine[0].node, 50)}` for an unknown node is caught by a handler ({', '.join(sorted(set(mine[0].handlers) & CATCHES_LOOKUP))})"
